@@ -271,6 +271,13 @@ async fn renew_certificate(
 	if !is_success {
 		// Do not try again at once: a failing certificate would otherwise be
 		// requested in a tight loop.
+		#[cfg(feature = "breard_r_acmed_verif")]
+		crate::verif::on_sleep(
+			"renew_fail",
+			Duration::from_secs(crate::DEFAULT_RENEW_FAIL_WAIT_SEC),
+		)
+		.await;
+		#[cfg(not(feature = "breard_r_acmed_verif"))]
 		sleep(Duration::from_secs(crate::DEFAULT_RENEW_FAIL_WAIT_SEC)).await;
 	}
 	(certificate, account_s.clone(), endpoint_s.clone())
